@@ -1,8 +1,11 @@
 """Known findings, written by hand after triage (DESIGN.md section 7).  Each entry is a genuine defect of
 doctrans reproduced by the replay recorded with it; `kf_build.py` turns this into known_findings.json."""
 DOC = ["rest", "numpydoc", "google"]
-DOCP = ["C01", "C05", "C08", "C18"]
+DOCP = ["C01", "C02", "C03", "C04", "C05", "C06", "C08", "C18"]
+ALLP = DOCP
 ANY = "*"
+FUN = ["function", "method"]
+DOCF = DOC + FUN
 FINDINGS = []
 FIXED = [
     "fixed: property=C01 4d08a93 numpydoc/google emitters dropped the name line of an untyped parameter (prose glued to neighbours, parameter lost)",
@@ -40,15 +43,20 @@ F("NPG-force-future-default", DOCP,
   ["DefaultFill", "RetKept.def"], obs=ZERO, when={"k": NPG, "step": "parse"})
 F("DOC-code-default-loses-backticks", DOCP,
   "a back-tick quoted code default comes back from a docstring without its back-ticks (a bare string)",
-  ["DefaultKept", "RetKept.def"], obs=["codeBare"], when={"k": DOC, "dd": True})
+  ["DefaultKept", "RetKept.def"], obs=["codeBare"], when={"k": DOCF, "dd": True})
 F("DOC-negative-int-as-float", DOCP,
   "extract_default: a negative integer whose declared type is not a plain scalar comes back as a float "
   "(and an absent type is then inferred as float)",
   ["DefaultKept", "TypKept", "ProseKept.ann"], obs=["other", "float", "diff"], when={"k": DOC, "dd": True},
   slot=[["none", "OptInt"], ANY, ANY, ANY, "intNeg"])
+F("FUNC-negative-int-as-float", ALLP,
+  "function/method: the docstring of the emitted function carries no type, so `Defaults to -5` is read as a float and that "
+  "float (and the inferred type float) overrides the signature's int default and annotation",
+  ["DefaultKept", "TypKept", "ProseKept.ann"], obs=["other", "float", "diff"], when={"k": FUN, "dd": True},
+  slot=[ANY, "own", ANY, ANY, "intNeg"])
 F("DOC-empty-string-default", DOCP,
   "an empty-string default renders as `Defaults to ` with nothing after it; prose and default are mangled on the way back",
-  ["ProseKept.base", "ProseKept.stop", "ProseKept.ann", "DefaultKept"], when={"k": DOC, "dd": True},
+  ["ProseKept.base", "ProseKept.stop", "ProseKept.ann", "DefaultKept"], when={"k": DOCF + ["class"], "dd": True},
   slot=[ANY, ANY, ANY, ANY, "strEmpty"])
 F("REST-return-only-default", DOCP,
   "a return entry that has only a default expression (no type, no prose) is not rendered in a ReST docstring",
@@ -75,11 +83,11 @@ F("NUMPYDOC-return-without-type", DOCP,
 F("DOC-scalar-return-with-code-default", DOCP,
   "a return entry with a scalar type and a code default: the docstring parser coerces the default with literal_eval and raises "
   "ValueError",
-  ["NeverRaises"], obs=["ValueError"], when={"k": DOC, "dd": True, "step": "parse"}, ret=[True, "int", "own", ANY, ANY, "code"])
+  ["NeverRaises"], obs=["ValueError"], when={"k": DOCF, "dd": True, "step": "parse"}, ret=[True, "int", "own", ANY, ANY, "code"])
 F("REST-untyped-str-or-code-default", DOCP,
   "ReST: an untyped parameter whose default is a string or code expression: the quoted default text is passed to float()/"
   "literal_eval and raises ValueError",
-  ["NeverRaises"], obs=["ValueError"], when={"k": "rest", "dd": True, "step": "parse"},
+  ["NeverRaises"], obs=["ValueError"], when={"k": ["rest"] + FUN, "dd": True, "step": "parse"},
   slot=["none", "own", ANY, ANY, ["str", "code"]])
 F("GOOGLE-return-only", DOCP,
   "google: a docstring with a Returns section but no Args section is scanned wrongly: return type and prose are mangled",
@@ -92,6 +100,9 @@ F("GOOGLE-return-without-type", DOCP,
 F("DOC-untyped-code-default-typed-str", DOCP,
   "an untyped parameter with a code default comes back typed `str` (the default lost its back-ticks and its type is inferred)",
   ["TypKept"], obs=["str"], when={"k": DOC, "dd": True}, slot=["none", ANY, ANY, ANY, "code"])
+F("CLASS-untyped-code-default-annotated-str", ALLP,
+  "class: an untyped attribute whose default is a code expression is annotated `str`",
+  ["Denotes.AttrAnn", "TypKept"], obs=["str"], when={"k": "class"}, slot=["none", ANY, ANY, ANY, "code"])
 F("DOC-empty-string-default-raises", DOCP,
   "numpydoc: `Defaults to ` followed by nothing makes the parser raise SyntaxError",
   ["NeverRaises"], obs=["SyntaxError"], when={"k": DOC, "dd": True, "step": "parse"}, slot=["str", ANY, ANY, ANY, "strEmpty"])
@@ -103,3 +114,100 @@ F("GOOGLE-return-without-prose", DOCP,
   "google: a return entry without prose is rendered as a bare `type:` line which the parser reads as prose",
   ["RetKept.typ", "RetKept.base", "RetKept.def", "RetKept.stop", "RetKept.ann", "RetKept.present"],
   when={"k": "google", "step": "parse"}, ret=[True, ANY, "none", ANY, ANY, ANY])
+
+
+# ------------------------------------------------------------------------------------------------ class
+F("CLASS-documented-first-order", ALLP,
+  "parse.class_ lists the attributes that have a :cvar entry (i.e. prose) first and appends the undocumented ones: parameter "
+  "order changes when a prose-less parameter precedes a documented one",
+  ["NamesOrder"], when={"k": "class", "step": "parse"}, any_slot=[ANY, "none", ANY, ANY, ANY], any_slot2=[ANY, "own", ANY, ANY, ANY])
+F("CLASS-untyped-return-code-typed-str", ALLP,
+  "class: an untyped return entry with a code default comes back typed `str` (type of the quoted representation)",
+  ["RetKept.typ", "Denotes.AttrAnn"], obs=["str"], when={"k": "class"}, ret=[True, "none", ANY, ANY, ANY, "code"])
+F("CLASS-untyped-None-default", ALLP,
+  "class without default text: an untyped parameter whose default is None comes back as type `str` with default ''",
+  ["TypKept", "DefaultKept", "Denotes.AttrVal", "Denotes.AttrAnn"], obs=["str", "strEmpty"], when={"k": "class", "dd": False},
+  slot=["none", ANY, ANY, ANY, "none"])
+F("CLASS-dotted-type-dropped-with-code-default", ALLP,
+  "_infer_default deletes the type of a parameter whose default is code-quoted when the type has no `[` (e.g. np.ndarray)",
+  ["TypKept"], obs=["none"], when={"step": "parse"}, slot=["Dotted", ANY, ANY, ANY, "code"])
+F("CLASS-untyped-None-default-no-prose", ALLP,
+  "class: an untyped, prose-less parameter whose default is None comes back as type `str` with default ''",
+  ["TypKept", "DefaultKept", "Denotes.AttrVal", "Denotes.AttrAnn"], obs=["str", "strEmpty"], when={"k": "class"},
+  slot=["none", "none", ANY, ANY, "none"])
+
+
+# ------------------------------------------------------------------------------------------------ function / method
+F("FUNC-return-type-dropped-with-code-default", ALLP,
+  "_interpolate_return deletes a return type that has no `[` (int, np.ndarray) whenever the function returns an expression",
+  ["RetKept.typ"], obs=["none"], when={"k": FUN, "step": "parse"}, ret=[True, ["int", "Dotted"], ANY, ANY, ANY, "code"])
+F("FUNC-untyped-return-code", ALLP,
+  "function/method: an untyped return entry with a default expression comes back typed `str`, its default a bare string",
+  ["RetKept.typ", "RetKept.def"], obs=["str", "codeBare"], when={"k": FUN, "step": "parse"}, ret=[True, "none", ANY, ANY, ANY, "code"])
+F("FUNC-docstring-inferred-type-overrides-annotation", ALLP,
+  "function/method with default text: the type inferred from the `Defaults to` value in the docstring (int/str/bool/float) takes "
+  "precedence over the signature's annotation (Optional[..], Union[..], Literal[..])",
+  ["TypKept"], obs=["int", "str", "bool", "float"], when={"k": FUN, "dd": True, "step": "parse"},
+  slot=[["OptInt", "OptStr", "OptBool", "UnionIntStr", "LitStr"], "own", ANY, ANY, ANY])
+F("FUNC-undocumented-kwargs-dropped", ALLP,
+  "parse.function keeps a **kwargs parameter only when the docstring documents it",
+  ["NamePresent"], when={"k": FUN, "step": "parse"}, slot=["OptDict", "none", ANY, ANY, ANY])
+F("FUNC-dotted-code-default-raises", ALLP,
+  "function/method with default text: a dotted call default (`np.empty(0)`) is cut at its first full stop by extract_default and "
+  "the remainder makes the docstring parser raise ValueError",
+  ["NeverRaises"], obs=["ValueError"], when={"k": FUN, "dd": True, "step": "parse"}, slot=[ANY, "own", ANY, ANY, "code"])
+
+# ------------------------------------------------------------------------------------------------ argparse
+F("ARGPARSE-return-default-quoted", ALLP,
+  "argparse: the return default is emitted as a string constant (``\"```expr```\"``) inside the returned tuple and comes back "
+  "with an extra pair of quotes",
+  ["RetKept.def", "Denotes.RetExpr"], obs=["codeQ"], when={"k": "argparse"}, ret=[True, ANY, ANY, ANY, ANY, "code"])
+F("ARGPARSE-untyped-return-crash", ALLP,
+  "parse.argparse_ast raises AttributeError/KeyError on a returned tuple whose docstring has no usable :rtype (untyped return entry)",
+  ["NeverRaises"], when={"k": "argparse", "step": "parse"}, ret=[True, "none", ANY, ANY, ANY, "code"])
+F("ARGPARSE-bool-not-required", ALLP,
+  "argparse: a `bool` option without default is emitted as not required and reads back as Optional[bool]",
+  ["TypKept", "Denotes.OptRequired"], obs=["OptBool", False], when={"k": "argparse"}, slot=["bool", ANY, ANY, ANY, "absent"])
+F("ARGPARSE-list-default", ALLP,
+  "argparse: a List[str] option with a code default is emitted with action=append and a mangled default (first element / bare "
+  "string), and its type comes back altered",
+  ["TypKept", "DefaultKept", "Denotes.OptType", "Denotes.OptDefault"], when={"k": "argparse"}, slot=["ListStr", ANY, ANY, ANY, "code"])
+F("ARGPARSE-zero-of-composite-is-empty-string", ALLP,
+  "argparse: a required List[str] / Literal[..] option without default acquires '' (the zero of str), which is neither a list nor "
+  "one of the choices",
+  ["DefaultFill"], obs=["strEmpty"], when={"k": "argparse", "step": "parse"}, slot=[["ListStr", "LitStr"], ANY, ANY, ANY, "absent"])
+
+# ------------------------------------------------------------------------------------------------ later hops (C05, C08)
+ANYCL = ["NeverRaises", "EmitNeverRaises", "TextStable", "IrStable", "StyleDetected", "SummaryKept", "NamesOrder", "NoExtraNames",
+         "NamePresent", "RetKept.present", "RetKept.typ", "RetKept.def", "RetKept.base", "RetKept.stop", "RetKept.ann",
+         "TypKept", "DefaultKept", "DefaultFill", "ProseKept.base", "ProseKept.stop", "ProseKept.ann", "FuncKindKept"]
+F("FOLLOW-UP-of-corrupt-state", ALLP,
+  "follow-up of an earlier failure in the same scenario: the description this step starts from already contains a value outside "
+  "the vocabulary (mangled prose / type / default reported at the hop that produced it)",
+  ANYCL, when={"hop": [2, 3]}, corrupt_before=True)
+F("NPG-second-pass-quoted-default-raises", ALLP,
+  "numpydoc/google: re-parsing a docstring emitted from a description whose prose already carries `Defaults to \"...\"` raises "
+  "ValueError (the quoted text is passed to a numeric conversion)",
+  ["NeverRaises"], obs=["ValueError"], when={"k": NPG, "dd": True, "step": "parse", "hop": [2, 3]},
+  slot=["str", "own", ANY, "same", ["str", "codeBare"]])
+F("FUNC-second-emit-untyped-None", ALLP,
+  "function/method: emitting again after a parse raises TypeError for an untyped, prose-less parameter whose default is None",
+  ["EmitNeverRaises"], obs=["TypeError"], when={"k": FUN, "hop": [2, 3]}, slot=["none", "none", ANY, ANY, "none"])
+F("FUNC-return-default-sentence-drift", ALLP,
+  "function/method: the `Defaults to` sentence of an untyped return entry changes between passes",
+  ["RetKept.ann", "IrStable", "TextStable", "NeverRaises"], when={"k": FUN, "dd": True, "hop": [2, 3]},
+  ret=[True, ["none", "str"], "own", ANY, ANY, ["code", "codeBare"]])
+F("GOOGLE-return-without-type-drift", ALLP,
+  "google: an untyped return entry keeps changing from pass to pass (its prose line is re-read as type, then as prose)",
+  ["TextStable", "IrStable", "RetKept.typ", "RetKept.base", "RetKept.present"], when={"k": "google", "hop": [2, 3]},
+  ret=[True, "none", ANY, ANY, ANY, ANY])
+F("NUMPYDOC-untyped-param-drift", ALLP,
+  "numpydoc: a description that started with an untyped parameter keeps changing on later passes (the `name :` line wanders into "
+  "the summary)",
+  ["TextStable", "IrStable", "SummaryKept", "NoExtraNames", "NamePresent"], when={"k": "numpydoc", "hop": [2, 3]},
+  init_slot=["none", ANY, ANY, ANY, ANY])
+F("NUMPYDOC-return-without-type-drift", ALLP,
+  "numpydoc: a description that started with an untyped return entry keeps changing on later passes (the Returns header is "
+  "re-read as parameters, then as summary)",
+  ["TextStable", "IrStable", "SummaryKept", "NoExtraNames", "NamePresent", "RetKept.present"], when={"k": "numpydoc", "hop": [2, 3]},
+  init_ret=[True, "none", ANY, ANY, ANY, ANY])
